@@ -26,7 +26,8 @@ type Env struct {
 	// OptCalls maps a Go call (printed with exprKey of the function and its args, e.g. "headers.Get(types.HeaderTryTimeout)")
 	// used in `if v, ok := CALL; ok {` / `if v, err := CALL; err == nil {` to a Lean expression of type `Option _`.
 	OptCalls map[string]string
-	// Types gives the Lean type of a Lean variable name (default Int); used for type ascriptions on lets.
+	// Types, when non-nil, turns on type ascriptions on lets: the Lean type of a Lean variable name (default Int).
+	// With Types == nil lets are emitted without ascription (the behaviour gen jobs written before typed lets rely on).
 	Types map[string]string
 }
 
@@ -35,6 +36,14 @@ func (env *Env) typeOf(v string) string {
 		return t
 	}
 	return "Int"
+}
+
+// asc renders " : T" for variable v when ascriptions are on.
+func (env *Env) asc(v string) string {
+	if env.Types == nil {
+		return ""
+	}
+	return " : " + env.typeOf(v)
 }
 
 func exprKey(e ast.Expr) string {
@@ -197,7 +206,7 @@ func (env *Env) block(stmts []ast.Stmt, ind string) (string, error) {
 		if err != nil {
 			return "", err
 		}
-		return "let " + name + " : " + env.typeOf(name) + " := " + rhs + "\n" + ind + k, nil
+		return "let " + name + env.asc(name) + " := " + rhs + "\n" + ind + k, nil
 	case *ast.IncDecStmt:
 		name, ok := env.Names[exprKey(x.X)]
 		if !ok {
